@@ -14,6 +14,11 @@ ROOT = os.path.dirname(os.path.dirname(os.path.abspath(__file__)))
 T = {
  "C01-m01": ("C01", "a filter whose AND contains an AndNot term next to an indexed term of a particular selectivity; only the indexed plan differs from the full scan",
              "caught", "quick seed 1", "c01 lookup-vs-scan differential signatures", None),
+ "C02-q02": ("C02", "the full optimiser (index metadata present) and a group whose only term is a same-kind group of two or more terms, at any nesting level", None, None, None, None),
+ "C15-q15": ("C15", "an administrator-defined class with a non-system must attribute (dynamic schema, domain level <= 14), then a create omitting it or a modify purging it", None, None, None, None),
+ "C20-q20": ("C20", "an access profile granting present+removed on uuid and a modlist mixing the uuid writes with a change of another attribute that also changes the entry's unique attributes", None, None, None, None),
+ "C31-q31": ("C31", "a badlist entry with a non-ASCII cased letter, submitted with that letter in upper case, strong enough to reach the badlist step, through a credential update session", None, None, None, None),
+ "C40-q40": ("C40", "an LDAP compare whose DN names an entry that exists but is invisible to the bound identity", None, None, None, None),
  "C03-n03": ("C03", "an entry with a sync external id is deleted or its external id is changed; only the externalid2uuid lookup index keeps the stale mapping",
              "caught", "quick seed 1", "c03/externalid-of-dead-entry-still-resolves, c03/externalid-of-no-entry-still-resolves",
              "missed at first (no entry carried an external id); added Op::ExtId (sync objects with external ids) and the external-id lookup-vs-scan comparison"),
@@ -46,7 +51,7 @@ T = {
  "C18-q18": ("C18", "a dynamic group's filter is edited, then a later operation creates or edits a candidate whose match differs between the old and the new filter (no schema reload in between)",
              "caught", "quick seed 1", "c18/dynmember-misses-matching-entry/after-create, c18/dynmember-has-non-matching-entry/after-set_desc", None),
  "C25-q25": ("C25", "a freshly bootstrapped database, an acting user whose only admin role is idm_unix_admins (added directly), a high-privilege target and one of the unix attributes",
-             None, None, None, None),
+             "caught", "quick seed 1", "c25/hp-person-modified/unix_password, c25/hp-person-modified/ssh_publickey", None),
  "C34-q34": ("C34", "in one write transaction a key is revoked and the same key object is modified again (rotate / revoke / any change) before commit, the key's previous status change being from an earlier transaction",
              None, None, None, None),
  "C19-n19": ("C19", "two entries in one incoming replication change set end up with the same name while no third entry holds it",
